@@ -293,7 +293,7 @@ where
     }
 
     fn new(cfg: &Cfg) -> Result<Self, Fail> {
-        let domain = Domain::new()?;
+        let domain = Domain::new(cfg.variant.is_ipc())?;
         let service_name: ServiceName = setup(format!("c17/{}", domain.tag).as_str().try_into(), "service name")?;
         let mut w = World {
             cfg: cfg.clone(),
@@ -802,8 +802,8 @@ where
 
     /// `Ok(Some(fail))`: the only thing that is left are empty per-node directories `nodes/<node-id>/`;
     /// this is reported after all other end-of-execution checks have run.
-    fn check_empty_domain(&self, site: &str) -> Result<Option<Fail>, Fail> {
-        let left = self.domain.leftovers();
+    fn check_empty_domain(&self, site: &str, with_shm: bool) -> Result<Option<Fail>, Fail> {
+        let left = if with_shm { self.domain.leftovers() } else { self.domain.leftovers_fs_only() };
         let node_dir = format!("{}/{}/", self.domain.root, self.domain.config.global.node.directory);
         let is_empty_node_dir = |p: &String| -> bool {
             p.strip_prefix(&node_dir).map(|r| r.ends_with('/') && r.trim_end_matches('/').chars().all(|c| c.is_ascii_digit()) && r.len() > 1).unwrap_or(false)
@@ -923,7 +923,7 @@ where
 
     fn finish(&mut self) -> Result<(), Fail> {
         self.teardown();
-        let deferred = self.check_empty_domain("after the last drop")?;
+        let deferred = self.check_empty_domain("after the last drop", true)?;
         // remove the known kind of remainder so that the second check sees only what the re-creation leaves
         if deferred.is_some() {
             let node_dir = format!("{}/{}", self.domain.root, self.domain.config.global.node.directory);
@@ -934,7 +934,7 @@ where
             }
         }
         self.reuse_names()?;
-        let second = self.check_empty_domain("after the names were reused and dropped again")?;
+        let second = self.check_empty_domain("after the names were reused and dropped again", false)?;
         self.domain.remove(self.cfg.variant.is_ipc());
         match deferred.or(second) {
             Some(f) => Err(f),
